@@ -39,8 +39,8 @@ type DistCase struct {
 	Logs        []DistLog `json:"logs"`
 }
 
-var witnessAnswers = []string{"valid", "valid", "valid", "valid-dupwit", "valid-extra-unknown", "missing", "error", "wronglogkey", "nowitsig", "badwitsig", "otherwitness", "nologsig", "corrupted", "otherlog", "otherlog-configured", "otherlog-configured", "wrongorigin-samekey", "empty", "legacywitsig"}
-var distribAnswers = []string{"200", "200", "200", "400", "404", "500", "201", "204", "connerr", "301-200", "302-200", "303-200", "307-200", "308-200", "307-500", "200-bigbody", "200-slow", "200-slow"}
+var witnessAnswers = []string{"valid", "valid", "valid", "valid-dupwit", "valid-extra-unknown", "missing", "error", "wronglogkey", "nowitsig", "badwitsig", "otherwitness", "nologsig", "corrupted", "otherlog", "otherlog-configured", "otherlog-configured", "wrongorigin-samekey", "empty", "legacywitsig", "error-deadline"}
+var distribAnswers = []string{"200", "200", "200", "400", "404", "500", "201", "204", "connerr", "301-200", "302-200", "303-200", "307-200", "308-200", "307-500", "200-bigbody", "200-slow", "200-slow", "timeout", "timeout"}
 
 type distStub struct {
 	mu   sync.Mutex
@@ -112,6 +112,10 @@ func (d *distStub) RoundTrip(r *http.Request) (*http.Response, error) {
 		return mk(c, "nope", nil), nil
 	case "connerr":
 		return nil, errors.New("stub: connection refused")
+	case "timeout":
+		// what net/http's transport reports for ResponseHeaderTimeout / Client.Timeout: an
+		// error that matches context.DeadlineExceeded although the caller's context is live
+		return nil, stubTimeout{}
 	case "301-200", "302-200", "303-200", "307-200", "308-200", "307-500":
 		c, _ := strconv.Atoi(answer[:3])
 		loc := *r.URL
@@ -120,6 +124,13 @@ func (d *distStub) RoundTrip(r *http.Request) (*http.Response, error) {
 	}
 	return mk(404, "unknown", nil), nil
 }
+
+type stubTimeout struct{}
+
+func (stubTimeout) Error() string   { return "stub: timeout awaiting response headers" }
+func (stubTimeout) Timeout() bool   { return true }
+func (stubTimeout) Temporary() bool { return true }
+func (stubTimeout) Is(err error) bool { return err == context.DeadlineExceeded }
 
 type distWitness struct {
 	answers map[string]func() ([]byte, error)
@@ -175,6 +186,9 @@ func runDist(c *DistCase) (bool, []string, error) {
 			werr = os.ErrNotExist
 		case "error":
 			werr = errors.New("stub witness: storage unavailable")
+		case "error-deadline":
+			// the witness's own storage timed out; the caller's context is still live
+			werr = fmt.Errorf("stub witness: storage: %w", context.DeadlineExceeded)
 		case "wronglogkey":
 			b = vlib.Note(text, vlib.NewKey(key.Name, "stranger").SigLine(text), witLine)
 		case "nowitsig":
@@ -297,7 +311,7 @@ func runDist(c *DistCase) (bool, []string, error) {
 	return nontrivial, classes, nil
 }
 
-const ruleC15 = "1-6 logs x witness answer class (17) x distributor answer class (16, incl. redirects that rewrite or preserve the method); oracle on the stub distributor's first-hop request log and DistributeOnce's error; non-trivial = >=2 logs with a failing class before a succeeding one; distinct by case hash"
+const ruleC15 = "1-6 logs x witness answer class (18, incl. a storage timeout) x distributor answer class (17, incl. redirects that rewrite or preserve the method and a transport timeout while the caller's context is live); oracle on the stub distributor's first-hop request log and DistributeOnce's error; non-trivial = >=2 logs with a failing class before a succeeding one; distinct by case hash"
 
 func distHash(c *DistCase) string {
 	b, _ := json.Marshal(c)
